@@ -332,6 +332,10 @@ class ValueSet:
                 else:
                     different = True
 
+            if self.regions and other.regions and len(self.regions.keys() | other.regions.keys()) > 1:
+                # offsets in different regions are different values, whatever the intervals
+                different = True
+
             if same and not different:
                 return TrueResult()
             if same and different:
